@@ -9,6 +9,7 @@ class Plan:
     tie = None          # {tag: prefix_len or None} compared implementation vs extracted model
     mon = None          # {tag: ...} compared implementation vs extracted reference/spec
     mon_extra = False   # run the extracted checker on (case, implementation output)
+    codes = None        # verdict codes of the extracted checker that belong to this property (None = all)
     tie_name = ''
     rule = ''
     timeout_ms = 10000
@@ -99,4 +100,295 @@ class C01(BattlePlan):
         return t
 
 
-PLANS = {p.pid: p for p in [C01()]}
+
+BT = {2: 3, 3: None, 5: None, 6: None, 7: None, 8: None, 9: None, 10: None, 11: None, 99: None, 98: None}
+
+
+def battle_tags(ints):
+    if not ints or ints[0] != 1:
+        return ['kind=%d' % (ints[0] if ints else -1)]
+    b = VM.parse_battle(ints)
+    t = ['warriors=%d' % len(b['ws']), 'P=%d' % b['P'], 'M<=16' if b['M'] <= 16 else 'M>16',
+         'R<M' if b['R'] < b['M'] else 'R>=M', 'W<M' if b['W'] < b['M'] else 'W>=M',
+         'cycles<=8' if b['C'] <= 8 else 'cycles>8']
+    if any(w['off'] + w['start'] >= b['M'] for w in b['ws']):
+        t.append('entry-wraps')
+    if any(w['off'] + len(w['code']) > b['M'] for w in b['ws']):
+        t.append('code-wraps')
+    return t
+
+
+def obs_of(rec, skip):
+    """decode an observable record into (cycle, living, count, alive, queues)"""
+    p = rec[skip:]
+    cyc, liv, cnt = p[0], p[1], p[2]
+    al = p[3:3 + cnt]
+    pos = 3 + cnt
+    qs = []
+    for _ in range(cnt):
+        n = p[pos]
+        qs.append(p[pos + 1:pos + 1 + n])
+        pos += 1 + n
+    return cyc, liv, cnt, al, qs
+
+
+class C02(BattlePlan):
+    pid = 'C02'
+    tie = BT
+    mon = BT
+    tie_name = 'battle traces: gmars RunCycle/Run vs extracted Sim.run_cycle/run (per-cycle queues, alive flags, counters, core sums; final core; Run() vs stepping)'
+    rule = ('1-4 warriors of random / hostile / structured code (imp, dwarf, SPL fans, DAT, DJN loops, self-modifying), cores 5..64, process limit 1/2/3/8, '
+            'cycle limits 1..200, placements anywhere including wrapping ones; driven cycle by cycle and by one Run() on a fresh simulator; '
+            'non-trivial = a death in a multi-warrior battle, a queue at the process limit, >=3 warriors, or the cycle limit reached')
+
+    def gens(self, tier):
+        n = {'quick': 2500, 'search': 3000}.get(tier, 60000)
+        return [('battle', n, [2 | 4 | 8, 4, 1, 200])]
+
+    def nontrivial(self, ints, impl):
+        b = VM.parse_battle(ints)
+        if len(b['ws']) >= 3:
+            return True
+        fin = next((r for r in impl if r and r[0] == 5), None)
+        if fin is None:
+            return True
+        cyc, liv, cnt, al, qs = obs_of(fin, 1)
+        if cyc >= b['C']:
+            return True
+        if cnt > 1 and liv < cnt:
+            return True
+        for r in impl:
+            if r and r[0] == 3:
+                _, _, _, _, q2 = obs_of(r, 2)
+                if any(len(q) >= b['P'] and b['P'] > 1 for q in q2):
+                    return True
+        return False
+
+    def tags(self, ints, impl):
+        return battle_tags(ints)
+
+
+class C04(BattlePlan):
+    pid = 'C04'
+    tie = {**BT, 1: None}
+    mon = None
+    mon_extra = True
+    codes = set(range(10, 20))
+    tie_name = 'hostile battles and configuration sweep: gmars vs extracted Sim (creation, spawn, every cycle)'
+    rule = ('(a) configurations with every field from {0..5, 2^10, 2^20, random < 2^20}: creation returns error xor simulator, never panics, accepted ones run; '
+            '(b) hostile battles: every instruction form, fields near M, limits above and below the core size, wrapping placements; the extracted invariant checker '
+            '(fields < M, queued PCs < M, queue length <= P, cycles <= limit, living = #alive, alive <-> queue non-empty) runs on gmars\' state after every cycle; '
+            'non-trivial = accepted configuration / battle with >= 2 cycles')
+
+    def gens(self, tier):
+        k = {'quick': 1, 'search': 1}.get(tier, 20)
+        return [('config', 1500 * k, []), ('battle', 1500 * k, [2 | 4 | 8 | 16, 4, 1, 60]), ('stepover', 1 if k == 1 else 6, [])]
+
+    def verdict_name(self, r):
+        names = {10: 'panic-or-hang', 11: 'cycle-count-above-limit', 12: 'warrior-count', 13: 'living-count-differs-from-alive-flags',
+                 14: 'queue-longer-than-process-limit', 15: 'queued-pc-out-of-range', 16: 'alive-flag-vs-queue', 17: 'field-out-of-range', 18: 'malformed'}
+        return names.get(r[0], str(r[0])) + '@record%d' % (r[1] if len(r) > 1 else -1)
+
+    def extra_monitor(self, ints, impl):
+        if ints and ints[0] == 3:
+            r = impl[0] if impl else []
+            if r[:2] == [1, 2] or any(x and x[0] in (9, 98, 99) for x in impl):
+                return 'creation-or-run-panicked'
+        return None
+
+    def nontrivial(self, ints, impl):
+        if ints[0] == 3:
+            return bool(impl) and impl[0][:2] == [1, 1]
+        return len([r for r in impl if r and r[0] == 3]) >= 2 or any(r and r[0] == 9 for r in impl)
+
+    def tags(self, ints, impl):
+        if ints[0] == 3:
+            return ['config-accepted' if impl and impl[0][:2] == [1, 1] else 'config-refused']
+        return battle_tags(ints)
+
+    def pretty(self, ints):
+        if ints[0] == 3:
+            return dict(kind='config', mode=ints[1], CoreSize=ints[2], Processes=ints[3], Cycles=ints[4], ReadLimit=ints[5], WriteLimit=ints[6], Length=ints[7], Distance=ints[8])
+        return BattlePlan.pretty(self, ints)
+
+
+class MonFilter:
+    """mixin: only verdict codes in self.codes count for this property"""
+
+
+class C11(C01):
+    pid = 'C11'
+    mon_extra = True
+    codes = {20, 21}
+    tie_name = 'single steps with limits below the core size: gmars vs extracted Exec'
+    rule = ('C01 single-step cases (all 7616 forms) with read/write limits chosen independently in 1..M; the extracted locality checker runs on gmars\' before/after core and queue: '
+            'changed cells within floor(W/2) of the PC, queued successors other than PC+1/PC+2 within floor(R/2); non-trivial = R<M or W<M and the step changed something')
+
+    def verdict_name(self, r):
+        return {20: 'write-beyond-W/2 at %d', 21: 'jump-beyond-R/2 to %d'}.get(r[0], '%d')  % (r[1] if len(r) > 1 else -1) if r[0] in (20, 21) else str(r[0])
+
+    def nontrivial(self, ints, impl):
+        b = VM.parse_battle(ints)
+        return (b['R'] < b['M'] or b['W'] < b['M']) and C01.nontrivial(self, ints, impl)
+
+
+class C12(BattlePlan):
+    pid = 'C12'
+    tie = {**BT, 50: None}
+    mon = None
+    mon_extra = True
+    codes = {40}
+    tie_name = 'pairs of battles (shift 0 / shift k, offsets + j*M): gmars vs extracted Sim on both'
+    rule = ('pairs (battle, same battle with every offset + k + j*M), 1-3 warriors, entry point anywhere, code and entry points wrapping past the end of the core; '
+            'the extracted rotation checker compares every observable of the shifted run with the rotated observable of the original; non-trivial = k>0 and at least 2 cycles ran')
+
+    def gens(self, tier):
+        n = {'quick': 2500, 'search': 3000}.get(tier, 60000)
+        return [('rot', n, [])]
+
+    def pretty(self, ints):
+        if ints[0] == 4:
+            d = VM.pretty_battle([1] + ints[3:])
+            d['shift_k'] = ints[1]
+            d['offset_multiple_j'] = ints[2]
+            return d
+        return BattlePlan.pretty(self, ints)
+
+    def shrink(self, ints):
+        if ints[0] != 4:
+            return
+        for c in VM.shrink_battle([1] + ints[3:]):
+            yield [4, ints[1], ints[2]] + c[1:]
+        if ints[2] > 0:
+            yield [4, ints[1], 0] + ints[3:]
+
+    def nontrivial(self, ints, impl):
+        return ints[1] > 0 and len([r for r in impl if r and r[0] == 3]) >= 4
+
+    def tags(self, ints, impl):
+        return ['k=0' if ints[1] == 0 else 'k>0', 'j=%d' % ints[2]] + battle_tags([1] + ints[3:])
+
+    def verdict_name(self, r):
+        return 'shifted-run-differs-from-rotated-run@record%d' % (r[1] if len(r) > 1 else -1)
+
+
+class C13(Plan):
+    pid = 'C13'
+    tie = {1: None, 30: None, 31: None, 99: None, 98: None}
+    mon = None
+    mon_extra = True
+    codes = {1, 2, 3, 4, 5, 6}
+    timeout_ms = 4000
+    tie_name = 'API histories: gmars vs extracted Sim API model (results, errors, panics, hangs, observable state after every call)'
+    rule = ('every call sequence of depth 3 (quick) / 4 (thorough) over a 32-call alphabet {AddWarrior x2, SpawnWarrior(i in -1..2, off in 0,M-1,M,2M+3), RunCycle, Run, Reset, '
+            'GetWarrior(i), GetMem(a), Alive/Queue/NextPC/Length} on a 5-cell core (exhaustive), plus random histories up to 60 calls on cores 3..8; each call under recover and a watchdog; '
+            'the extracted ApiSpec monitor checks result and observable state after every call; non-trivial = at least one warrior spawned and one cycle run')
+
+    def gens(self, tier):
+        if tier == 'quick':
+            return [('apix', 3, []), ('api', 1500, [])]
+        if tier == 'search':
+            return [('api', 3000, [])]
+        return [('apix', 4, []), ('api', 40000, [])]
+
+    def verdict_name(self, r):
+        names = {1: 'panic', 2: 'hang', 3: 'wrong-result', 4: 'wrong-state', 5: 'malformed', 6: 'inapplicable-call-changed-state'}
+        return names.get(r[0], str(r[0])) + '@call%d' % (r[1] if len(r) > 1 else -1)
+
+    OPN = {1: ('AddWarrior', 1), 2: ('SpawnWarrior', 2), 3: ('RunCycle', 0), 4: ('Run', 0), 5: ('Reset', 0), 6: ('GetWarrior', 1), 7: ('GetMem', 1),
+           8: ('Alive', 1), 9: ('Queue', 1), 10: ('NextPC', 1), 11: ('Length', 1)}
+
+    def parse(self, ints):
+        M, R, W, P, C, Ln, Ds, nd = ints[1:9]
+        pos = 9
+        ds = []
+        for _ in range(nd):
+            ln, st = ints[pos:pos + 2]
+            pos += 2
+            ds.append(dict(start=st, code=[tuple(ints[pos + 6 * j:pos + 6 * j + 6]) for j in range(ln)]))
+            pos += 6 * ln
+        nops = ints[pos]
+        pos += 1
+        ops = []
+        for _ in range(nops):
+            if pos >= len(ints):
+                break
+            name, ar = self.OPN.get(ints[pos], ('?', 0))
+            ops.append([ints[pos]] + ints[pos + 1:pos + 1 + ar])
+            pos += 1 + ar
+        return dict(M=M, R=R, W=W, P=P, C=C, Len=Ln, Dist=Ds, ds=ds, ops=ops)
+
+    def unparse(self, a):
+        out = [2, a['M'], a['R'], a['W'], a['P'], a['C'], a['Len'], a['Dist'], len(a['ds'])]
+        for d in a['ds']:
+            out += [len(d['code']), d['start']]
+            for i in d['code']:
+                out += list(i)
+        out.append(len(a['ops']))
+        for o in a['ops']:
+            out += o
+        return out
+
+    def pretty(self, ints):
+        a = self.parse(ints)
+        return dict(M=a['M'], P=a['P'], cycles=a['C'],
+                    warrior_data=[dict(start=d['start'], code=[VM.fmt_instr(i) for i in d['code']]) for d in a['ds']],
+                    calls=['%s(%s)' % (self.OPN.get(o[0], ('?',))[0], ','.join(str(x) for x in o[1:])) for o in a['ops']])
+
+    def shrink(self, ints):
+        import copy
+        a = self.parse(ints)
+        n = len(a['ops'])
+        for k in range(n - 1, -1, -1):
+            c = copy.deepcopy(a)
+            del c['ops'][k]
+            yield self.unparse(c)
+        for di, d in enumerate(a['ds']):
+            for ci, ins in enumerate(d['code']):
+                if tuple(ins) != VM.ZERO and len(d['code']) >= 1:
+                    c = copy.deepcopy(a)
+                    c['ds'][di]['code'][ci] = VM.ZERO
+                    yield self.unparse(c)
+
+    def nontrivial(self, ints, impl):
+        a = self.parse(ints)
+        kinds = [o[0] for o in a['ops']]
+        return 1 in kinds and 2 in kinds and (3 in kinds or 4 in kinds)
+
+    def tags(self, ints, impl):
+        a = self.parse(ints)
+        t = ['len<=4' if len(a['ops']) <= 4 else 'len>4']
+        for o in a['ops']:
+            t.append('call=' + self.OPN.get(o[0], ('?',))[0])
+        return t
+
+
+class C15(BattlePlan):
+    pid = 'C15'
+    tie = {**BT, 2: None, 4: None}
+    mon = None
+    mon_extra = True
+    codes = {30, 31, 32, 33, 34, 35}
+    tie_name = 'report streams: gmars Reporter callbacks vs the reports of extracted Exec.exec / Sim.run_cycle / spawn'
+    rule = ('C01 single steps and C02 battles with a recording Reporter and a StateRecorder attached, core dumped after every cycle; the extracted report checker verifies: '
+            'addresses < M and warrior indexes valid, every changed cell named by a write/increment/decrement report of that cycle, TaskPop sequence and terminate reports equal '
+            'the reference trace, reported changes within floor(W/2) of the PC, recorder state = last-touch fold of the stream; non-trivial = some cell changed')
+
+    def gens(self, tier):
+        k = {'quick': 1, 'search': 1}.get(tier, 25)
+        return [('battle', 1500 * k, [1 | 2 | 8 | 16 | 32, 3, 1, 40]), ('stepr', 2 * k, [])]
+
+    def verdict_name(self, r):
+        names = {30: 'report-address-or-warrior-index-invalid', 31: 'cell-changed-without-report', 32: 'task-reports-differ-from-reference-trace',
+                 35: 'recorder-state-differs-from-last-touch-fold'}
+        return names.get(r[0], str(r[0])) + '@cycle%d' % (r[1] if len(r) > 1 else -1) + (' address %d' % r[2] if len(r) > 2 else '')
+
+    def nontrivial(self, ints, impl):
+        dumps = [r for r in impl if r and r[0] == 11]
+        return len(dumps) >= 1
+
+    def tags(self, ints, impl):
+        return battle_tags(ints)
+
+
+PLANS = {p.pid: p for p in [C01(), C02(), C04(), C11(), C12(), C13(), C15()]}
